@@ -141,10 +141,22 @@ def parseShards (arr : Array Json) : R (List (ShardHits Float)) :=
 
 def jHit (h : Hit Float) : Json := jArr [jStr (ofCps h.id), jFloatBits h.score]
 
+/-- `_raw_score`: NaN ↦ 0.0; strict `<` on the result. -/
+def rawF (s : Float) : Float := if s != s then 0.0 else s
+def rawLt (a b : Float) : Bool := rawF a < rawF b
+
+/-- `InMemoryIndex._rank_by_cosine` on candidates whose cosine is given: threshold filter, sort by
+`(-score, id)`, one entry per id, cut to `k`. -/
+def handleRank (j : Json) : R Json := do
+  let hs ← (← fldArr j "hits").toList.mapM parseHit
+  let thr ← fldFloat j "thr"
+  let cands := hs.filter (fun h => h.score >= thr)
+  pure (jArr ((rankU (rawLe (fun a b : Float => a < b)) (← fldNat j "k") cands).map jHit))
+
 def handleMerge (j : Json) : R Json := do
   let shards ← parseShards (← fldArr j "shards")
   let tiers ← (← fldArr j "tiers").toList.mapM (fun t => do pure (cps (← t.getStr?)))
-  let r := mergeTierHits (hitLe qscoreF) (← fldInt j "k") shards tiers
+  let r := mergeTierHits (hitLeQR qscoreF rawLt) (← fldInt j "k") shards tiers
   pure (jObj [("hits", jArr (r.1.map jHit)), ("used", jArr (r.2.map (fun t => jStr (ofCps t))))])
 
 /-- monitor on an implementation merge result (scores compared as bit patterns). -/
@@ -181,6 +193,6 @@ def handleWalk (j : Json) : R Json := do
 def routes : List (String × (Json → R Json)) :=
   [("par.run", handleRun), ("par.mon", handleMon), ("par.t1", handleT1),
    ("par.shards", handleShards), ("par.shards.mon", handleShardsMon),
-   ("par.qscore", handleQscore), ("par.merge", handleMerge), ("par.merge.mon", handleMergeMon), ("par.walk", handleWalk)]
+   ("par.qscore", handleQscore), ("par.merge", handleMerge), ("par.merge.mon", handleMergeMon), ("par.walk", handleWalk), ("par.rank", handleRank)]
 
 end Driver.HPar
